@@ -1305,5 +1305,88 @@ def rule_p(repo, chk):
     chk.notes['C01.p assertions'] = {'tree-shape, listed': n_shape, 'caught by try/except': n_caught, 'about internal objects (not judged)': n_other}
 
 
+def _function_family(repo):
+    fam = set()
+    for mod, cn in (('jedi.inference.value.function', 'FunctionMixin'), ('jedi.inference.value.function', 'BaseFunctionExecutionContext')):
+        c = repo.cls(mod, cn)
+        fam |= {x.key for x in [c] + repo.subclasses(c)}
+    return fam
+
+
+def _maybe_lambda_expr(fam, m, q, e):
+    """why the expression can denote a lambdef node (parso's Lambda.name raises AttributeError: "lambda is not named"), or None"""
+    if isinstance(e, ast.Call) and call_name(e) == 'search_ancestor' and any(isinstance(a, ast.Constant) and a.value == 'lambdef' for a in e.args):
+        return 'search_ancestor(.., \'lambdef\')'
+    if isinstance(e, ast.Attribute) and e.attr == 'tree_node':
+        base = norm(e.value)
+        if base == 'self':
+            if (m.name + ':' + '.'.join(q.split('.')[:-1])) in fam:
+                return 'the tree node of a function value/execution (def or lambda)'
+        elif any(k in base.lower() for k in ('function', 'func', 'execution')):
+            return '%s.tree_node (def or lambda)' % base
+    return None
+
+
+def rule_q(repo, chk):
+    chk.clause('C01.q', 'a lambda has no name: parso\'s Lambda.name raises AttributeError, so `.name` of a node that can be a lambdef (the tree '
+                        'node of a function value or execution, the result of search_ancestor(.., \'lambdef\'), or a parameter that receives '
+                        'one of these at a call site) is read only under a test of its .type that excludes lambdef')
+    fam = _function_family(repo)
+
+    def lam_vars(m, q, f, extra=()):
+        v = {p_: 'a parameter that receives a function tree node' for p_ in extra}
+        for a in stmts_in(f, ast.Assign):
+            if len(a.targets) == 1 and isinstance(a.targets[0], ast.Name):
+                w = _maybe_lambda_expr(fam, m, q, a.value)
+                if w:
+                    v[a.targets[0].id] = w
+        return v
+    param_seeds = {}
+    for m in repo.modules.values():
+        for q, f in m.defs.items():
+            if not isinstance(f, FUNC_TYPES):
+                continue
+            v = lam_vars(m, q, f)
+            for c in own_nodes(f):
+                if isinstance(c, ast.Call):
+                    r = repo.resolve(c.func)
+                    d = repo.def_by_dotted(r) if r else None
+                    if d is None or not isinstance(d, FUNC_TYPES):
+                        continue
+                    ps = params(d)
+                    for i_, a in enumerate(c.args):
+                        if i_ < len(ps) and ((isinstance(a, ast.Name) and a.id in v) or _maybe_lambda_expr(fam, m, q, a)):
+                            param_seeds.setdefault(id(d), set()).add(ps[i_])
+    n = 0
+    for m in sorted(repo.modules.values(), key=lambda m: m.name):
+        for q, f in sorted(m.defs.items()):
+            if not isinstance(f, FUNC_TYPES):
+                continue
+            v = lam_vars(m, q, f, param_seeds.get(id(f), ()))
+            for x in own_nodes(f):
+                if not (isinstance(x, ast.Attribute) and x.attr == 'name'):
+                    continue
+                src = v.get(x.value.id) if isinstance(x.value, ast.Name) else _maybe_lambda_expr(fam, m, q, x.value)
+                if not src:
+                    continue
+                n += 1
+                subj = norm(x.value)
+
+                def acc(e, pol, subj=subj):
+                    if isinstance(e, ast.Compare) and len(e.ops) == 1 and isinstance(e.left, ast.Attribute) and e.left.attr == 'type' and norm(e.left.value) == subj:
+                        c_ = e.comparators[0]
+                        vals = {y.value for y in c_.elts if isinstance(y, ast.Constant)} if isinstance(c_, (ast.Tuple, ast.List, ast.Set)) else \
+                            ({c_.value} if isinstance(c_, ast.Constant) else set())
+                        if isinstance(e.ops[0], (ast.Eq, ast.In)):
+                            return (pol and 'lambdef' not in vals) or (not pol and 'lambdef' in vals)
+                        if isinstance(e.ops[0], (ast.NotEq, ast.NotIn)):
+                            return (pol and 'lambdef' in vals) or (not pol and 'lambdef' not in vals)
+                    return False
+                w = gate(f, x, acc)
+                chk.ob('C01.q', w is None, x, '`%s` in %s (%s) is read only where the node is not a lambdef' % (short(x, 40), q, src),
+                       'no test of %s.type excludes lambdef: %s' % (subj, w) if w else '', key='lambda-name|%s:%s|%s' % (m.name, q, norm(x)))
+    chk.floor('C01.q', n, 3, '(.name of nodes that can be lambdas)')
+
+
 RULES = [('C01.a', rule_a), ('C01.b', rule_b), ('C01.c', rule_c), ('C01.d', rule_d), ('C01.e', rule_e), ('C01.f', rule_f),
          ('C01.g', rule_g), ('C01.h', rule_h), ('C01.i', rule_i), ('C01.j', rule_j), ('C01.k', rule_k), ('C01.l', rule_l), ('C01.m', rule_m), ('C01.n', rule_n), ('C01.o', rule_o), ('C01.p', rule_p)]
